@@ -225,11 +225,15 @@ inductive AModel (K : Type)
   | empirical (t : Table K)          -- `Empirical1D`: no `integrate`
   | const1D (amp : K)                -- astropy's `Const1D`: no `integrate`
   | sum (a b : AModel K)             -- a compound model: no `integrate`
+  | gaussAbsorption (amp mean stddev : K) -- `GaussianAbsorption1D` (`1 − Gaussian`): no `integrate`
+  | scaled (k : K) (m : AModel K)    -- `model | Scale(k)` (a spectrum times a number): no `integrate`
+  | opaque (tab : List (K × K))      -- any other model class: no `integrate` expected; its samples are data
   | redshift (zp1 : K) (m : AModel K) -- a source with `z ≠ 0` (`RedshiftScaleFactor(z).inverse | model`, `zp1 = 1 + z`): no `integrate`
 
 /-- `hasattr(self.model, 'integrate')` -/
 def AModel.hasIntegrate : AModel K → Bool
-  | .empirical _ | .const1D _ | .sum _ _ | .redshift _ _ => false
+  | .empirical _ | .const1D _ | .sum _ _ | .redshift _ _ | .gaussAbsorption _ _ _ | .scaled _ _
+  | .opaque _ => false
   | _ => true
 
 /-- `self.model.integrate(x)`: value and unit -/
@@ -246,7 +250,8 @@ def AModel.integrate (C : AConst K) (T : Transc K) (m : AModel K) (x : List K) :
   | .trapezoid amp _ w s => (trapezoidIntegrate amp w s).map (·, .length)
   | .blackbody t => .ok (bbIntegrate C T t, .power)
   | .blackbodyNorm t => .ok (bbIntegrate C T t * C.omega, .power)
-  | .empirical _ | .const1D _ | .sum _ _ | .redshift _ _ => .error .typeError   -- no such attribute (never reached)
+  | .empirical _ | .const1D _ | .sum _ _ | .redshift _ _ | .gaussAbsorption _ _ _ | .scaled _ _
+  | .opaque _ => .error .typeError   -- no such attribute (never reached)
 
 /-- the model sampled in the spectrum's internal unit (PHOTLAM for a source, nothing for a
 unitless spectrum): what `self(x)` returns at one wavelength -/
@@ -271,6 +276,14 @@ def AModel.evalInternal (C : AConst K) (T : Transc K) : AModel K → K → Excep
       let v ← b.evalInternal C T x
       pure (u + v)
   | .redshift zp1 m, x => if zp1 = 0 then .error .nan else m.evalInternal C T (x / zp1)
+  | .gaussAbsorption amp m s, x => .ok (1 - gaussEval T amp m s x)
+  | .scaled k m, x => do
+      let y ← m.evalInternal C T x
+      pure (k * y)
+  | .opaque tab, x =>
+      match tab.find? (fun p => decide (p.1 = x)) with
+      | some p => .ok p.2
+      | none => .error .lookupError
 
 /-- `_model_fconv_wav[modelname]`: the wavelength parameter at which an analytic result is
 converted to the caller's `flux_unit` (only these model classes are converted) -/
